@@ -47,7 +47,7 @@ type Field struct {
 	Ptr   bool   `json:"ptr,omitempty"`   // Go field / value is a pointer
 	Maybe bool   `json:"maybe,omitempty"` // tagged `yae:",maybe"` (implies Ptr)
 	Nil   bool   `json:"nil,omitempty"`   // pointer is nil (V is then only the static prototype)
-	Tag   int    `json:"tag,omitempty"`   // spelling of the struct tag: 0 plain, 1 padded with spaces, 2 upper-case optional marker
+	Tag   int    `json:"tag,omitempty"`   // spelling of the struct tag: 0 plain, 1 padded with spaces, 2 upper-case optional marker, 3 name left to the Go field name (capitalised names only)
 }
 
 // Env7 is an environment: ordered bindings + the carrier that materialises it.
@@ -172,9 +172,27 @@ func structType(fs []*Field) reflect.Type {
 				tag = `yae:"` + f.Name + `,MAYBE"`
 			}
 		}
-		sf[i] = reflect.StructField{Name: fmt.Sprintf("F%d_%s", i, exportable(f.Name)), Type: t, Tag: reflect.StructTag(tag)}
+		goName := fmt.Sprintf("F%d_%s", i, exportable(f.Name))
+		if f.Tag == 3 && goNameable(f.Name) {
+			// the tag leaves the name out: the Go field name is the name
+			goName = f.Name
+			switch {
+			case f.Maybe:
+				tag = `yae:",maybe"`
+			case i%2 == 1:
+				tag = `yae:""`
+			default:
+				tag = ""
+			}
+		}
+		sf[i] = reflect.StructField{Name: goName, Type: t, Tag: reflect.StructTag(tag)}
 	}
 	return reflect.StructOf(sf)
+}
+
+// goNameable: s can be an exported Go field name as it stands.
+func goNameable(s string) bool {
+	return s != "" && s[0] >= 'A' && s[0] <= 'Z' && exportable(s) == s
 }
 
 func exportable(s string) string {
@@ -305,7 +323,7 @@ func (e *Env7) host() interface{} {
 
 type gen7 struct{ r *rng }
 
-var fieldNames = []string{"a", "b", "c", "id", "name", "tags", "v", "w"}
+var fieldNames = []string{"a", "b", "c", "id", "name", "tags", "v", "w", "Age", "Score"}
 
 func (g *gen7) prim() *VT {
 	r := g.r
@@ -354,6 +372,9 @@ func (g *gen7) value(d int, ptrFree bool) *VT {
 		perm := r.intn(len(fieldNames))
 		for i := 0; i < n; i++ {
 			f := &Field{Name: fieldNames[(perm+i)%len(fieldNames)], V: g.value(d-1, ptrFree)}
+			if goNameable(f.Name) && r.chance(0.5) {
+				f.Tag = 3
+			}
 			if !ptrFree && r.chance(0.3) {
 				// pointers only around pointer-free payloads: keeps the static and the dynamic type equal
 				f.V = g.value(0, true)
@@ -419,10 +440,13 @@ func (g *gen7) env() *Env7 {
 	r := g.r
 	e := &Env7{Carrier: r.pick([]string{"map", "struct", "ptrstruct"})}
 	n := 1 + r.intn(4)
-	names := []string{"x", "xs", "X", "o", "ob", "l", "m", "p", "q", "x_1"}
+	names := []string{"x", "xs", "X", "o", "ob", "l", "m", "p", "q", "x_1", "Y"}
 	off := r.intn(len(names))
 	for i := 0; i < n; i++ {
 		b := &Field{Name: names[(off+i)%len(names)], V: g.value(1+r.intn(3), false)}
+		if goNameable(b.Name) && r.chance(0.5) {
+			b.Tag = 3
+		}
 		if b.V.K == "obj" && r.chance(0.3) {
 			b.Ptr = true
 		}
@@ -663,7 +687,7 @@ func (g *gen7) mutate(a *Env7, kind string) *Env7 {
 	case "tagstyle":
 		// another spelling of the same struct tags (padding, case of the optional marker):
 		// the names and optional markers they denote are unchanged
-		st := 1 + r.intn(2)
+		st := 1 + r.intn(3)
 		for _, b := range e.Binds {
 			b.Tag = st
 		}
